@@ -37,7 +37,7 @@ from resonaate.physics.measurements import (
     Range,
     RangeRate,
 )
-from resonaate.physics.time.stardate import ScenarioTime, datetimeToJulianDate
+from resonaate.physics.time.stardate import JulianDate, ScenarioTime, datetimeToJulianDate, julianDateToDatetime
 from resonaate.physics.transforms.methods import lla2eci, sez2eci
 
 PROPERTY = "C16"
@@ -406,8 +406,8 @@ def _kinds(tier):
 
 
 def _phases(tier):
-    """Phase offsets of the placement / innovation assignment: quick runs one (shifted by the seed), thorough all six."""
-    return list(range(6)) if tier == "thorough" else [0]
+    """Phase offsets of the placement / innovation assignment: quick runs one (shifted by the seed), thorough three."""
+    return [0, 2, 4] if tier == "thorough" else [0]
 
 
 def _chunks_by_cost(multisets, target, max_orders=24):
@@ -996,11 +996,14 @@ def _real_obs(t0, x_pred, stack, seed, turns=None, shift=None):
     return obs, kinds
 
 
-def _real_h(obs, t0):
+def _real_h(obs, t0):  # noqa: ARG001
+    """Stacked real measurement function, evaluated at the observation's own epoch converted as the filter does."""
+    utc = [julianDateToDatetime(JulianDate(ob.julian_date)) for ob in obs]
+
     def hfun(state):
         out = []
-        for ob in obs:
-            out.extend(ob.measurement.calculateMeasurement(ob.sensor_eci, state, t0, noisy=False).values())
+        for ob, when in zip(obs, utc):
+            out.extend(ob.measurement.calculateMeasurement(ob.sensor_eci, state, when, noisy=False).values())
         return np.array([float(v) for v in out])
 
     return hfun
